@@ -129,6 +129,9 @@ def service_cases(tier, inst):
         kinds = {A.kind_of(s) for s in ms}
         if len(kinds) == 2:
             yield {"streams": ms}
+    for ms in P.crowds(inst, 4, dts=(0,)):        # problems of realistic size (10-40 streams): several pockets on both sides at once
+        yield {"streams": ms}
+        yield {"streams": ms, "uset": 6, "K": 4, "inst": list(inst)}
     # the stored load profiles after MULTI-level utility targeting (two and three levels per side, gliding levels): the profiles
     # are inputs of the allocation and must come out of it unchanged
     Ku = 4
